@@ -294,7 +294,7 @@ def prod_isolation(e, tier="quick", ops=None):
 
 
 HISTORIES = ["open_add", "alloc", "claim", "open_add_sweep", "alloc_sweep_claim", "open_close_other",
-             "claim_list_open_close", "claim_list_release", "list_other_app"]
+             "claim_list_open_close", "claim_list_release", "list_other_app", "alloc_claim"]
 
 
 def run_history(x, kind, sy):
@@ -333,6 +333,14 @@ def run_history(x, kind, sy):
             h = conn("gB", b.app, sy["h.side"])
             w.deliver(h, w.msg("claim", nameplate=got[0]))
             w.disconnect(h)
+    elif kind == "alloc_claim":
+        # one side lets the server pick a nameplate, another side then claims a name of its own choice
+        g = conn("gA", b.app, sy["g.side"])
+        w.deliver(g, w.msg("allocate"))
+        w.disconnect(g)
+        h = conn("gB", b.app, sy["h.side"])
+        w.deliver(h, w.msg("claim", nameplate=sy["h.name"]))
+        w.disconnect(h)
     elif kind == "claim":
         g = conn("gA", b.app, sy["g.side"])
         w.deliver(g, w.msg("claim", nameplate=sy["h.name"]))
@@ -381,6 +389,7 @@ def prod_restart(e, tier="quick", ops=None, histories=None):
     the same frames, the same store and the same connection state in both."""
     bd = dict(bounds(tier))
     bd["K"] = 1 if tier == "quick" else 2        # the history adds rows of its own
+    c04 = None
     ops = ops or [o for o in OPS if o not in ("bind2", "disconnect")]
     op = ops[e.choose(len(ops), "op")]
     cmd = make_cmd(e, op)
@@ -405,7 +414,15 @@ def prod_restart(e, tier="quick", ops=None, histories=None):
         c = w.new_conn("c0")
         x.c, x.app, x.side = c, app, side
         bex = w.deliver(c, w.msg("bind", appid=app, side=side))
+        before_cmd = w.snapshot()
         ex = apply_cmd(x, cmd) if op != "sweep" else w.expire()
+        if which == "kept" and op == "allocate":
+            got = [r["frame"].get("nameplate") for r in step_frames(c) if ftype(r) == "allocated"]
+            if got:
+                # C04 on a server with a past: the answer is not a name the app already had in use
+                held = Or(*[And(r.p, r.v["app_id"] == app.z, eqv(col_value(before_cmd, "nameplates", r, "name"), got[0]))
+                            for r in before_cmd.tables["nameplates"]])
+                c04 = z3.Not(held)
         results.append(dict(x=x, bex=bex, ex=ex, post=w.snapshot(),
                             frames={cc.label: [r for r in step_frames(cc)] for cc in w.conns}))
     ra, rb = results
@@ -417,6 +434,8 @@ def prod_restart(e, tier="quick", ops=None, histories=None):
     A["C11.store"] = stores_equal(ra["post"], rb["post"])
     A["C11.related"] = And(subscribed_labels(ra["x"].w) == subscribed_labels(rb["x"].w),
                            conn_state_equal(conn_by_label(ra["x"].w, "c0"), conn_by_label(rb["x"].w, "c0")))
+    if c04 is not None:
+        A["C04.free_after_history"] = c04
     return PathResult(A, world=[ra["x"].w, rb["x"].w], kf=[("KF-D6", kf)],
                       info=dict(op=op, history=hist))
 
